@@ -14,7 +14,9 @@ def run(tier):
     violations = [{"kind": "broken-proof-obligation", "what": b, "no_failing_input": True, "input": b} for b in po["broken"]]
     import gen
     pinned = set(gen.discount_corpus() + ["DUP3 MLOAD DUP4 MULMOD SWAP2", "DUP3 MLOAD DUP4 ADDMOD SWAP2", "DUP2 MLOAD DUP3 MULMOD"])
-    res = c02.collect(tier, sd + 2000, rng, greedy=True, extra=gen.discount_corpus() + gen.forwarding_corpus() + gen.tuck_corpus() + ["DUP3 MLOAD DUP4 MULMOD SWAP2", "DUP3 MLOAD DUP4 ADDMOD SWAP2", "DUP2 MLOAD DUP3 MULMOD"])
+    res = c02.collect(tier, sd + 2000, rng, greedy=True, extra=gen.discount_corpus() + gen.forwarding_corpus() + gen.tuck_corpus() + [
+        # a load, a store, a second load, both results combined: the position bounds count an instruction too many
+        "SLOAD PUSH1 0x01 PUSH1 0x00 SSTORE CALLER SLOAD ADD", "MLOAD PUSH1 0x01 PUSH1 0x00 MSTORE CALLER MLOAD ADD", "SLOAD PUSH1 0x01 PUSH1 0x00 SSTORE CALLER SLOAD SUB"] + ["DUP3 MLOAD DUP4 MULMOD SWAP2", "DUP3 MLOAD DUP4 ADDMOD SWAP2", "DUP2 MLOAD DUP3 MULMOD"])
     c = Counter()
     reqs, meta = [], []
     for t, r, st in res:
